@@ -581,35 +581,58 @@ def check_landuse(ctx):
     wfn = wm.func('ncf2landuse')
     rfn = rm.func('landuse.__init__')
     where = 'src/PseudoNetCDF/camxfiles/landuse Write.py vs Memmap.py'
-    wnew = [st for st in wfn.body if isinstance(st, ast.If) and norm(st.test) == 'newstyle']
-    rnew = [st for st in rfn.body if isinstance(st, ast.If) and norm(st.test) == 'self._newstyle' and
-            any(isinstance(s2, ast.Assign) and 'dtype' in norm(s2.value) for s2 in st.body)]
-    if not wnew or not rnew:
-        raise AnalysisError('construct not understood: landuse style branches')
+    # path-wise (paths.py): the two record types as they stand on a path taken for the new style and on one taken for the old style,
+    # with the lists they are built from substituted - whether the types are built inside the branches or after them
+    from .. import paths as _paths
 
-    def layouts(stmts, base_bindings, polyenv):
-        b = dict(base_bindings)
-        out = {}
-        for st in stmts:
-            if isinstance(st, ast.Assign):
-                t = st.targets[0]
-                nm = t.id if isinstance(t, ast.Name) else (t.attr if isinstance(t, ast.Attribute) else None)
-                if nm:
-                    b[nm.lstrip('_')] = st.value
-        env = DT.DtypeEnv(b, polyenv=polyenv)
-        for k in ('fland_dtype', 'other_dtype'):
-            if k in b:
-                out[k] = env.eval(b[k])
-        return out
+    def layouts_for(fn, flag, pol, base_bindings, polyenv, obj=None):
+        names = ('fland_dtype', 'other_dtype')
+
+        def is_def(st):
+            if not isinstance(st, ast.Assign):
+                return False
+            t = st.targets[0]
+            nm = t.id if isinstance(t, ast.Name) else (t.attr if isinstance(t, ast.Attribute) else None)
+            return nm is not None and nm.lstrip('_') in names and not isinstance(st.value, (ast.Name, ast.Attribute))      # not a mere alias of the type
+        seeds = [st for st in iter_stmts(fn.body) if is_def(st)]
+        if not seeds:
+            return {}
+        # names bound once mean the same on every path and are left to the dtype evaluator; names bound in several places are
+        # substituted path by path
+        nstores = {}
+        for n_ in ast.walk(fn):
+            if isinstance(n_, ast.Name) and isinstance(n_.ctx, ast.Store):
+                nstores[n_.id] = nstores.get(n_.id, 0) + 1
+        keep = tuple(k for k in list(base_bindings) + list(polyenv or {}) if k not in names and nstores.get(k, 0) <= 1)
+        for pth in _paths.enumerate_paths(fn.body, limit=60000, relevant=_paths.relevance(fn.body, seeds, control=False)):
+            if pth.exit[0] == 'raise':
+                continue
+            res = _paths.expand(pth, keep=keep)
+            decisions = [p_ for e_, x, p_ in res.conds if norm(x) == flag]
+            if not res.feasible or not decisions or any(d_ is not pol for d_ in decisions):
+                continue
+            out = {}
+            b = dict(base_bindings)
+            env = DT.DtypeEnv(b, polyenv=polyenv)
+            for st, new in res.stmts:
+                if is_def(st):
+                    t = st.targets[0]
+                    nm = (t.id if isinstance(t, ast.Name) else t.attr).lstrip('_')
+                    out[nm] = env.eval(new.value)
+            if len(out) == 2:
+                return out
+        return {}
     wb = dict((k, v) for k, v in local_bindings(wfn).items())
     wenv, renv = _dim_env(wfn, 'ncffile'), _dim_env(rfn, 'self')
-    for tag, ws, rs in (('new', wnew[0].body, rnew[0].body), ('old', wnew[0].orelse, rnew[0].orelse)):
-        wl = layouts(ws, wb, wenv)
-        rl = layouts(rs, {}, renv)
+    nfound = 0
+    for tag, pol in (('new', True), ('old', False)):
+        wl = layouts_for(wfn, 'newstyle', pol, wb, wenv)
+        rl = layouts_for(rfn, 'self._newstyle', pol, {}, renv)
         for k in ('fland_dtype', 'other_dtype'):
             if k not in wl or k not in rl:
                 raise AnalysisError('construct not understood: landuse %s %s' % (tag, k))
-            cmp_layout(ctx, 'R-HDRTABLE', 'landuse:%s:%s' % (tag, k), wl[k], rl[k], wm.relpath, 'ncf2landuse', ws[0], where)
+            nfound += 1
+            cmp_layout(ctx, 'R-HDRTABLE', 'landuse:%s:%s' % (tag, k), wl[k], rl[k], wm.relpath, 'ncf2landuse', wfn.body[0], where)
 
 
 def run(ctx):
